@@ -108,7 +108,7 @@ def handle (s : S) (i : Nat) (j : Json) : S × List Json :=
           (if mDbal != dbal then [verdictDiff i (if op == "unbond" then "payout" else "deposit-balance-delta") (mkInt mDbal) (mkInt dbal)] else [])
         -- property predicates on the implementation's own numbers
         let pv := s.prev
-        let healthy := pv.supply > 0 && pv.tv ≥ pv.supply      -- the theorems' hypothesis TV ≥ S > 0
+        let healthy := pv.supply > 0 && pv.tv ≥ 0 && pv.rate > 0      -- the theorems' hypotheses 0 < S, 0 ≤ TV, 0 < rate
         let lender := ok && user != 0 && healthy
         let v := payoutFor h0 pv.rate
         let v' := payoutFor h0 iRate
@@ -117,7 +117,7 @@ def handle (s : S) (i : Nat) (j : Json) : S × List Json :=
           (match s.pair with
            | some p =>
              if op == "unbond" && ok && (fBool? j "pair").getD false && user == p.user && amt == p.minted
-                && p.supply > 0 && p.tv ≥ p.supply then
+                && p.supply > 0 && p.tv ≥ 0 && p.r > 0 then
                (if !(okBondUnbond p.a p.r p.supply dbal && okBondUnbondCeil p.a p.r p.supply dbal) then
                  [verdictViol i "C07.bond_unbond" (Json.mkObj [("a", mkInt p.a), ("minted", mkInt p.minted), ("payout", mkInt dbal),
                     ("rateBefore", mkInt p.r), ("supplyBefore", mkInt p.supply), ("tvBefore", mkInt p.tv)])] else [])
@@ -127,13 +127,13 @@ def handle (s : S) (i : Nat) (j : Json) : S × List Json :=
           (if lender && h0 > 0 && h0 ≤ pv.supply && op == "bond" && !okOthersBond h0 pv.rate v v' then
             [verdictViol i "C07.others_unharmed" (Json.mkObj [("op", op), ("h", mkInt h0), ("before", mkInt v), ("after", mkInt v'),
               ("rateBefore", mkInt pv.rate), ("rateAfter", mkInt iRate)])] else []) ++
-          (if lender && h0 > 0 && h0 ≤ iSt.supply && iSt.tv ≥ 0 && op == "unbond" && !okOthersUnbond pv.supply iSt.supply v v' then
+          (if lender && h0 > 0 && h0 ≤ iSt.supply && pv.cash ≤ pv.tv && op == "unbond" && !okOthersUnbond pv.supply iSt.supply v v' then
             [verdictViol i "C07.others_unharmed" (Json.mkObj [("op", op), ("h", mkInt h0), ("before", mkInt v), ("after", mkInt v'),
               ("rateBefore", mkInt pv.rate), ("rateAfter", mkInt iRate)])] else []) ++
           -- C07.rate_mono_partial
           (if lender && op == "bond" && !okRateBond pv.rate iRate iSt.supply then
             [verdictViol i "C07.rate_mono" (Json.mkObj [("op", op), ("rateBefore", mkInt pv.rate), ("rateAfter", mkInt iRate), ("supplyAfter", mkInt iSt.supply)])] else []) ++
-          (if lender && op == "unbond" && iSt.supply > 0 && iSt.tv ≥ 0 && !okRateUnbond pv.rate iRate pv.supply iSt.supply then
+          (if lender && op == "unbond" && iSt.supply > 0 && pv.cash ≤ pv.tv && !okRateUnbond pv.rate iRate pv.supply iSt.supply then
             [verdictViol i "C07.rate_mono" (Json.mkObj [("op", op), ("rateBefore", mkInt pv.rate), ("rateAfter", mkInt iRate), ("supplyAfter", mkInt iSt.supply)])] else []) ++
           -- C07.cap: an accepted borrow respects 10·(TV − cash + amt) ≤ 9·TV on the numbers before it, and
           -- afterwards outstanding ≤ 0.9·TV' up to the interest accrued inside the call
